@@ -32,6 +32,7 @@ type Scenario struct {
 type DocSpec struct {
 	JSON   string `json:"json"`
 	Number bool   `json:"number,omitempty"` // decode numbers as json.Number instead of float64
+	Int64  bool   `json:"int64,omitempty"`  // integral numbers as int64 (as a caller building the value in Go would)
 	Native bool   `json:"native,omitempty"` // vars only: top-level values as a Go caller builds them (int, []string, []int)
 }
 
